@@ -127,16 +127,17 @@ fn poll_once<const N: usize>(oq: &mut Q<N>, t: &mut KTransport, ret: Result<Opti
 /// returned, the buffer is re-posted under the same token in the next available-ring slot, and the queue is fully
 /// stocked after every poll.  The ring indices start at 0xfffd so both 16-bit indices wrap during the history.
 /// Bound: B = 4; N, number of events and event-index as stated at the instantiations below.
-fn poll_any_token<const N: usize>(event_idx: bool, rounds: usize) {
+fn poll_any_token<const N: usize>(event_idx: bool, rounds: usize, symbolic: bool) {
     let (mut oq, mut t) = mk::<N>(event_idx, 0xfffd);
     let mut round = 0;
     while round < rounds {
-        let tok: u16 = kani::any();
+        let tok: u16 = if symbolic { kani::any() } else { (N - 1) as u16 };
         kani::assume((tok as usize) < N);
-        let len: u32 = kani::any();
+        let len: u32 = if symbolic { kani::any() } else { 3 };
         kani::assume(len as usize <= B);
-        let bytes: [u8; B] = kani::any();
-        let hret: Result<Option<u8>> = match kani::any::<u8>() % 3 { 0 => Ok(None), 1 => Ok(Some(7)), _ => Err(Error::Unsupported) };
+        let bytes: [u8; B] = if symbolic { kani::any() } else { [9, 8, 7, 6] };
+        let hret: Result<Option<u8>> = if !symbolic { Ok(Some(7)) } else {
+            match kani::any::<u8>() % 3 { 0 => Ok(None), 1 => Ok(Some(7)), _ => Err(Error::Unsupported) } };
         let a0 = avail_idx(&oq);
         dev_complete(&mut oq, tok, len, bytes);
         let (calls, ptr, l, copy, r) = poll_once(&mut oq, &mut t, hret);
@@ -152,25 +153,31 @@ fn poll_any_token<const N: usize>(event_idx: bool, rounds: usize) {
         assert!(avail_idx(&oq) == a0.wrapping_add(1), "C19: exactly one buffer must be re-posted");
         assert!(avail_slot(&oq, a0) == tok, "C19: buffer re-posted under a different token");
         fully_stocked(&oq);
-        // nothing further is pending
-        let (calls2, _, _, _, r2) = poll_once(&mut oq, &mut t, Ok(Some(9)));
-        assert!(calls2 == 0 && r2 == Ok(None), "C19: an event was delivered twice");
+        if symbolic {
+            // nothing further is pending
+            let (calls2, _, _, _, r2) = poll_once(&mut oq, &mut t, Ok(Some(9)));
+            assert!(calls2 == 0 && r2 == Ok(None), "C19: an event was delivered twice");
+        }
         round += 1;
     }
 }
 
-/// quick tier: N = 2, one event on ANY of the two buffers, no event-index
+/// quick tier (smoke run, concrete): N = 2, one event on buffer 1, length 3, bytes 9 8 7, handler returns Ok(Some(7))
 #[kani::proof]
 #[kani::unwind(10)]
-fn c19_poll_any_token_n2() { poll_any_token::<2>(false, 1); }
+fn c19_poll_smoke_n2() { poll_any_token::<2>(false, 1, false); }
+/// thorough tier: N = 2, one event on ANY of the two buffers, ANY length/bytes/handler outcome, no event-index
+#[kani::proof]
+#[kani::unwind(10)]
+fn c19_poll_any_token_n2() { poll_any_token::<2>(false, 1, true); }
 /// thorough tier: N = 2, two events (ANY tokens, so the second may reuse the first buffer), ANY event-index setting
 #[kani::proof]
 #[kani::unwind(10)]
-fn c19_poll_any_token_n2x2() { poll_any_token::<2>(kani::any(), 2); }
+fn c19_poll_any_token_n2x2() { poll_any_token::<2>(kani::any(), 2, true); }
 /// thorough tier: N = 4, two events, event-index on
 #[kani::proof]
 #[kani::unwind(10)]
-fn c19_poll_any_token_n4x2() { poll_any_token::<4>(true, 2); }
+fn c19_poll_any_token_n4x2() { poll_any_token::<4>(true, 2, true); }
 
 /// C19: a burst of two completions (ANY two distinct posted buffers, in ANY order) before the driver polls:
 /// delivered in completion (used-ring) order, one per poll, then nothing.  Bound: B = 4, burst of 2, N as instantiated.
@@ -243,3 +250,29 @@ fn c19_poll_any_used_ring_n2() { poll_any_used_ring::<2>(); }
 #[kani::proof]
 #[kani::unwind(10)]
 fn c19_poll_any_used_ring_n4() { poll_any_used_ring::<4>(); }
+
+/// WITNESS of suspected defect (C07), EXPECTED TO FAIL on the unchanged tree; not listed in any props.d tier.
+/// The device (1) completes buffer 1 claiming B+1 bytes: `poll` answers IoError and leaves token 1 un-posted;
+/// (2) reports token 1 again.  `pop` only checks `token < SIZE`, so `VirtQueue::pop_used` is called for a token that
+/// is not outstanding (its `# Safety` clause is violated): the buffer is passed to `Hal::unshare` a second time, with
+/// device address 0 instead of the address `share` returned, and `num_used` drops below the number of posted buffers.
+/// Concrete input: N = 2, used ring = [(id 1, len 5), (id 1, len 1)].
+#[kani::proof]
+#[kani::unwind(10)]
+fn c07_witness_ioerror_then_repeated_token() {
+    let (mut oq, mut t) = mk::<2>(false, 0);
+    dev_complete(&mut oq, 1, (B + 1) as u32, [0; B]);
+    let (c1, _, _, _, r1) = poll_once(&mut oq, &mut t, Ok(Some(1)));
+    assert!(c1 == 0 && r1 == Err(Error::IoError));
+    assert!(oq.queue.num_used == 1);
+    let l0 = log_len();
+    dev_complete(&mut oq, 1, 1, [0; B]);
+    let (_c2, _, _, _, _r2) = poll_once(&mut oq, &mut t, Ok(Some(2)));
+    let mut e = l0;
+    while e < log_len() {
+        if let Ev::Unshare(paddr, v, _l, _d) = log_at(e) {
+            assert!(paddr == v as u64 + BOUNCE, "C07: buffer unshared a second time, with a device address share did not return");
+        }
+        e += 1;
+    }
+}
